@@ -234,7 +234,7 @@ def check(ctx, case):
 
 def shard(ctx):
     bobproc.warm()
-    run_hypothesis(ctx, case_st(ctx.quick()), lambda c: check(ctx, c), ctx.n(400, 6000), shrink=False, minimize=("faults", "edits"))
+    run_hypothesis(ctx, case_st(ctx.quick()), lambda c: check(ctx, c), ctx.n(640, 6000), shrink=False, minimize=("faults", "edits"))
 
 def replay(ctx, case):
     run_case(ctx, case, confirm=True)
